@@ -20,6 +20,7 @@ from ..workloads import specs as W
 from ._spec_common import eval_tree
 
 PROP = "C13"
+ANCHORS = ['dep_logic.specifiers.special:AnySpecifier.__eq__', 'dep_logic.specifiers.special:AnySpecifier.__hash__', 'dep_logic.specifiers.special:EmptySpecifier.__eq__', 'dep_logic.specifiers.special:EmptySpecifier.__hash__', 'dep_logic.markers.any:AnyMarker.__eq__', 'dep_logic.markers.empty:EmptyMarker.__eq__', 'dep_logic.utils:OrderedSet.__hash__', 'dep_logic.utils:OrderedSet.__contains__']
 RULE = ("Object zoo: every value produced while evaluating seeded specifier trees and marker operation trees, plus "
         "hand-picked spellings (AnySpecifier() vs RangeSpecifier(), EmptySpecifier(), versions spelled 1.0 / 1.0.0, "
         "atoms with literal on either side, atoms with and without a cached specifier view, grouped ==/!= atoms built "
